@@ -6,15 +6,15 @@ use duke::verif::reader::Pool;
 /// JVMS 4.4: size of the entry body after the tag byte, and whether it takes two slots.
 fn body(tag: u8) -> (usize, bool) { match tag { 3 | 4 => (4, false), _ => (8, true) } }
 
-//# {"id":"c01_pool_method_handle","props":["C01","C16"],"tier":"quick","cap":1500,"lib":"verif","bound":"a concrete 11-entry pool (Utf8 A f I ()V, Class, two NameAndType, FieldRef, MethodRef, InterfaceMethodRef) whose last entry is a MethodHandle with SYMBOLIC reference_kind (all 256 values) and SYMBOLIC reference_index (0..=12): get_loadable must yield the JVMS 4.4.8 handle kind for the kind/reference combination and an error otherwise; unwind 14","fns":["PoolRead::{read,get_loadable,get_method_handle}","PoolEntry::{as_loadable,as_method_handle,as_field_ref,as_method_ref,as_interface_method_ref,as_method_ref_or_interface_method_ref}","duke::jstring::from_vec_to_string"]}
+//# {"id":"c01_pool_mh_fieldref","props":["C01","C16"],"tier":"quick","cap":1500,"bound":"the same concrete 11-entry pool, MethodHandle referencing the Fieldref (index 6), SYMBOLIC reference_kind (all 256 values): kinds 1..=4 give GetField/GetStatic/PutField/PutStatic, every other kind is an error; unwind 14","fns":["PoolRead::{read,get_loadable}","PoolEntry::{as_loadable,as_method_handle,as_field_ref}"]}
+//# {"id":"c01_pool_method_handle","props":["C01","C16"],"tier":"thorough","cap":3600,"bound":"a concrete 11-entry pool (Utf8 A f I ()V, Class, two NameAndType, FieldRef, MethodRef, InterfaceMethodRef) whose last entry is a MethodHandle with SYMBOLIC reference_kind (all 256 values) and SYMBOLIC reference_index (0..=12): get_loadable must yield the JVMS 4.4.8 handle kind for the kind/reference combination and an error otherwise; unwind 14","fns":["PoolRead::{read,get_loadable,get_method_handle}","PoolEntry::{as_loadable,as_method_handle,as_field_ref,as_method_ref,as_interface_method_ref,as_method_ref_or_interface_method_ref}","duke::jstring::from_vec_to_string"]}
 //# {"id":"c01_pool_one","props":["C01","C16"],"tier":"quick","cap":1200,"bound":"constant_pool_count = 2 or 3 (what a long/double needs), one entry Integer/Float/Long/Double (symbolic tag and payload); every index 0..=3 through every numeric getter; unwind 10","fns":["duke::class_reader::pool::PoolRead::{read,get,get_integer,get_long,get_float,get_double}","duke::ClassRead::{read_u8,read_u16,read_i32,read_i64,read_u32,read_u64}"]}
 //# {"id":"c01_pool_numeric","props":["C01","C16"],"tier":"thorough","cap":3600,"bound":"constant_pool_count in 0..=4 (symbolic), first entry Integer/Float/Long/Double with symbolic payload, second entry Integer/Float, buffer possibly truncated by 0..=2 bytes; every index 0..=5 through every numeric getter; unwind 12","fns":["duke::class_reader::pool::PoolRead::{read,get,get_integer,get_long,get_float,get_double}","duke::ClassRead::{read_u8,read_u16,read_i32,read_i64,read_u32,read_u64}"]}
-proofs! {
-	#[cfg_attr(kani, kani::unwind(14))]
-	fn c01_pool_method_handle() {
+
+fn method_handle_body(refidx: u8) {
+	{
 		use duke::tree::method::code::{Handle, Loadable};
 		let kind = sym::u8();
-		let refidx = sym::u8_in(0, 12);
 		#[rustfmt::skip]
 		let buf: [u8; 57] = [
 			0, 12,                       // constant_pool_count
@@ -60,11 +60,19 @@ proofs! {
 			(Ok(_), None) => panic!("an ill-kinded MethodHandle (kind / reference mismatch, unknown kind, dangling index) was accepted"),
 			(Err(_), Some(_)) => panic!("a well-formed MethodHandle was rejected"),
 		}
-		witness!(want == Some(4), "REF_putStatic");
-		witness!(want == Some(7) && is_i, "REF_invokeSpecial on an interface method");
-		witness!(kind == 9 && is_m, "REF_invokeInterface on a Methodref (rejected)");
+		witness!(!is_f || want == Some(4), "REF_putStatic");
+		witness!(is_f || (want == Some(7) && is_i), "REF_invokeSpecial on an interface method");
+		witness!(is_f || (kind == 9 && is_m), "REF_invokeInterface on a Methodref (rejected)");
 		core::mem::forget(r); core::mem::forget(pool);
 	}
+}
+
+proofs! {
+	#[cfg_attr(kani, kani::unwind(14))]
+	fn c01_pool_method_handle() { method_handle_body(sym::u8_in(0, 12)); }
+	#[cfg_attr(kani, kani::unwind(14))]
+	fn c01_pool_mh_fieldref() { method_handle_body(6); }
+
 
 	#[cfg_attr(kani, kani::unwind(10))]
 	fn c01_pool_one() {
